@@ -8,6 +8,7 @@ def run(tier, seed, t0):
     return _sess.run_session_check(
         PROP, tier, seed, t0,
         families=[("content", 500, 10000), ("rpc", 100, 1000), ("listeners", 60, 600), ("mixed", 200, 3000)],
+        own_kinds=('content',),
         mc_jobs=[("MC_Conn_chclose_q.cfg", None, None), ("MC_Conn_consumer.cfg", None, "thorough")],
         rule="1-3 channels x 1-2 consumers (+ return listeners, + basic.get answers): 1-4 messages per channel with body "
              "lengths 0/1/2/5/64/1000/5000 in random partitions into body frames; the frames of different channels are "
